@@ -128,6 +128,7 @@ function f(a) { return arguments.length + (this && this.k) + a; }
 log(acc.join(), f.call({k: "c"}, 2, 3), f.bind({k: "b"}, 5)(6));
 switch (acc.length) { case 2: log("two"); case 5: log("fall"); break; default: log("dflt"); }
 for (var k in {p: 1, q: 2}) { acc.push(k); } with ({wv: 9}) { acc.push(wv); }
+var fi = ""; for (var fk = (fi += "I", "z") in {a: 1, b: 2}) { fi += fk; } log(fi, fk);
 acc.join() + [1, 2].map(function(v) { return v * 2; });
 `},
 	// The next bodies first use a construct normally (the "victim" part, logged)
@@ -212,6 +213,14 @@ T.fns = [function() { return ++T.calls; }, {f: function() { return T.calls += 10
 T.proto = {pc: 0, inc: function() { return ++this.pc; }};
 T.child = Object.create(T.proto);
 T.alias = (function(a) { T.rd = function() { return a; }; return arguments; })(1);
+// strings held as UTF-16 code units (String.fromCharCode) and built by
+// concatenation - ASCII, non-ASCII, astral - and arrays of primitives: data
+// that looks immutable; every copy derives NEW values from it by appending
+T.f = String.fromCharCode;
+T.u16 = T.f(97) + T.f(98); T.u16 = T.u16 + T.f(99);
+T.u16n = T.f(0x100) + T.f(0x4e2d); T.u16n = T.u16n + T.f(0xe9);
+T.u16a = T.f(0xd83d) + T.f(0xde00); T.u16a = T.u16a + T.f(33);
+T.prims = [1, "two", 3.5].concat([true]);
 // accessor SHAPES: {get only, set only, get+set, both undefined} on an object
 // literal, through defineProperty, on a prototype, on an array index, on the
 // global object and on a function; every setter counts in T.audit
@@ -244,6 +253,8 @@ if (BRF) { T.made = gmk(); Object.getPrototypeOf(T.made).leak = "copy" + TID; }
 log("bridge", BRF && Object.getPrototypeOf(T.made) === Array.prototype, BRF && T.made instanceof Array, BRF && T.made.join(), BRF && gff()(), gslice.length, BRS && (gslice.length = TID, gslice.length), gslice[0], gmap.a + gmap.b, gstruct.N + gstruct.Twice(), garray[1], gconv(TID), gcb(function(x) { return x + TID; }), "/bridge");
 T.shapes.wo = TID; T.shapes.rw = TID; T.shapes.dwo = TID; T.shapes.none = TID; T.schild.pwo = TID; T.sarr[1] = TID; gwo = TID; T.add.fwo = TID;
 log("accessors", T.audit.join(), T.shapes.ro, T.shapes.rw, T.shapes.dro, T.shapes.none, T.shapes.wo, T.sarr.length);
+var MINE = [T.u16 + T.f(87 + TID), T.u16n + T.f(0x3b1 + TID), T.u16a + T.f(48 + TID), T.u16 + T.u16n, T.prims.concat(TID).join(), T.prims.slice(1).concat("s" + TID).join()];
+log("derived", MINE.join("|"), T.u16, T.u16n, T.u16a.length, T.u16.slice(1), T.u16n.charCodeAt(2), T.prims.join());
 T.where = "copy" + TID; T.gs = TID; T.alias[0] += TID;
 log(T.fact(3), T.same(), T.calls, T.ev(), T.cth(), T.wth(), T.gs, T.fns[0](), T.fns[1].f(), T.child.inc(), T.proto.pc, T.rd());
 `
